@@ -83,6 +83,9 @@ where
                 }
                 Poll::Ready(Err(err)) => {
                     logging::keep_alive::unrecoverable_error(&err);
+                    // The attempt has completed and must not be polled again: the stream is
+                    // given up, and says so if it is asked again.
+                    self.status = ConnectionStatus::Exhausted;
                     return Err(err);
                 }
                 _ => (),
